@@ -393,6 +393,9 @@ func e5Check(h H, rule string, scope []*ssa.Function, exceptions map[string]e5Ex
 					}
 					st.Exception++
 					r.Hold(rule, key, in.Pos(), "explicit panic accepted: "+ex.reason, ex.requires...)
+				} else if proveAt(fn, in).prove(newLin(-1)) || proveAtCallers(h.p, fn, in, 0) {
+					st.Prover++
+					r.Hold(rule, key, in.Pos(), "explicit panic unreachable: the guards leading to it contradict each other, or contradict what every caller passes")
 				} else {
 					st.Failed++
 					r.Fail(rule, key, in.Pos(), "explicit panic reachable in code that must be total")
